@@ -668,9 +668,9 @@ theorem loadTrack_safe (hdr : Bytes → Out Bytes) (hh : ∀ d, d.length < 2^64 
 
 /-! ### D11 frames, D12 data end, D13 frame bounds -/
 
-theorem framesLoop_safe (fileLen : Nat) : ∀ (fs : List FrameV) (prev : Nat), (framesLoop fileLen fs prev).Safe
-  | [], _ => rfl
-  | f :: fs, prev => by
+theorem framesLoop_safe (fileLen : Nat) : ∀ (fs : List FrameV) (prev prevOff : Nat), (framesLoop fileLen fs prev prevOff).Safe
+  | [], _, _ => rfl
+  | f :: fs, prev, prevOff => by
     unfold framesLoop
     split
     · rfl
@@ -678,12 +678,12 @@ theorem framesLoop_safe (fileLen : Nat) : ∀ (fs : List FrameV) (prev : Nat), (
       · rfl
       · split
         · rfl
-        · exact framesLoop_safe fileLen fs _
+        · exact framesLoop_safe fileLen fs _ _
 
 /-- **C22_total_frames** — `ensure_non_overlapping_frames` (filter, sort by offset, `checked_add`,
     bounds and overlap tests) on any frame table. -/
 theorem C22_total_frames (frames : List FrameV) (fileLen : Nat) : (ensureNonOverlapping frames fileLen).Safe :=
-  framesLoop_safe _ _ _
+  framesLoop_safe _ _ _ _
 
 theorem maxEnd_lt {acc off len : Nat} (h : acc < 2^64) : maxEnd acc off len < 2^64 := by
   unfold maxEnd
@@ -903,5 +903,7 @@ example : timelineSelect [5, 1, 2^64 - 1, 0] (some 3) 2 = .ok [1] := by decide
 example : ensureNonOverlapping [⟨100, 10, true⟩, ⟨105, 10, true⟩] 1000 = .err "overlap" := by decide
 example : ensureNonOverlapping [⟨2^64 - 1, 10, true⟩] 1000 = .err "overflow" := by decide
 example : ensureNonOverlapping [⟨2^64 - 1, 10, false⟩, ⟨200, 5, true⟩, ⟨100, 10, true⟩] 1000 = .ok () := by decide
+example : ensureNonOverlapping [⟨100, 10, true⟩, ⟨100, 10, true⟩, ⟨110, 1, true⟩] 1000 = .ok () := by decide
+example : ensureNonOverlapping [⟨100, 10, true⟩, ⟨100, 9, true⟩] 1000 = .err "overlap" := by decide
 
 end Mv.Dec
